@@ -653,10 +653,61 @@ impl Primitive {
     /// Will error if the primitive is not a number.
     pub fn negate(&mut self) -> Result<()> {
         match self {
-            Primitive::BigInt(x) => *x = -*x,
-            Primitive::Int(x) => *x = -*x,
+            Primitive::BigInt(x) => {
+                *x = x
+                    .checked_neg()
+                    .with_context(|| format!("attempt to negate with overflow (-({x}) does not fit in a bigint)"))?
+            }
+            Primitive::Int(x) => {
+                *x = x
+                    .checked_neg()
+                    .with_context(|| format!("attempt to negate with overflow (-({x}) does not fit in an int)"))?
+            }
             Primitive::Float(x) => *x = -*x,
             ty => bail!("cannot negate {ty}"),
+        }
+
+        Ok(())
+    }
+
+    /// Integer arithmetic has no wrap-around in the language: report a result that does not fit
+    /// the kind of `self <op> rhs` as an error (zero divisors are reported by the operators).
+    ///
+    /// # Errors
+    /// Will error if `op` is one of `+ - * / %`, both operands are of an integer kind and the
+    /// exact result is not representable in the kind the promotion table gives it.
+    pub fn check_integer_overflow(&self, op: &str, rhs: &Primitive) -> Result<()> {
+        use Primitive::*;
+
+        macro_rules! fits {
+            ($ty:ty, $x:expr, $y:expr) => {{
+                let (x, y) = ($x as $ty, $y as $ty);
+                match op {
+                    "+" | "+=" => x.checked_add(y).is_some(),
+                    "-" | "-=" => x.checked_sub(y).is_some(),
+                    "*" | "*=" => x.checked_mul(y).is_some(),
+                    "/" | "/=" => y == 0 || x.checked_div(y).is_some(),
+                    "%" | "%=" => y == 0 || x.checked_rem(y).is_some(),
+                    _ => true,
+                }
+            }};
+        }
+
+        let (fits, kind) = match (self, rhs) {
+            (Int(x), Int(y)) => (fits!(i32, *x, *y), "an int"),
+            (Int(x), Byte(y)) => (fits!(i32, *x, *y), "an int"),
+            (Byte(x), Int(y)) => (fits!(i32, *x, *y), "an int"),
+            (Byte(x), Byte(y)) => (fits!(u8, *x, *y), "a byte"),
+            (BigInt(x), BigInt(y)) => (fits!(i128, *x, *y), "a bigint"),
+            (BigInt(x), Int(y)) => (fits!(i128, *x, *y), "a bigint"),
+            (Int(x), BigInt(y)) => (fits!(i128, *x, *y), "a bigint"),
+            (BigInt(x), Byte(y)) => (fits!(i128, *x, *y), "a bigint"),
+            (Byte(x), BigInt(y)) => (fits!(i128, *x, *y), "a bigint"),
+            _ => (true, ""),
+        };
+
+        if !fits {
+            bail!("arithmetic with overflow: `{self} {op} {rhs}` does not fit in {kind}")
         }
 
         Ok(())
